@@ -143,6 +143,8 @@ def c12(tier):
     mt.run(P, C)
     mt.mt9(P, C)
     mt.mt10(P, C)
+    # the protocol the rules see is the protocol that is built: no lock, wait or store hides inside an assert (gone with NDEBUG)
+    kb.as2(P, C)
     # no state outside the job structures is shared between the workers
     selftest.run(P, C, ('re1',))
     dp.re1(P, C)
@@ -323,6 +325,7 @@ def c05(tier):
     kb.kb8(P, C)
     # 'trip no internal assertion': every assert on the evaluation path is one of the discharged kinds
     kb.as1(P, C)
+    kb.as2(P, C)
     dp.cl10(P, C)
     kb.sc4(P, C)
     # which core reads centers[D]/order[D]/strides[D] is decided by the dispatch table
